@@ -4,7 +4,7 @@
    describe the ordered tree T; the theorems below say that then every traversal generator of
    the code (Model/Iter.v) returns what the pre-order walk of the child lists dictates. *)
 From Coq Require Import List Arith Bool.
-From BS Require Import Base.Sexp Model.Heap Model.Edit Model.Iter Spec.Tree Proofs.HeapBasics Proofs.Views.
+From BS Require Import Base.Sexp Model.Heap Model.Edit Model.Iter Spec.Tree Proofs.HeapBasics Proofs.Views Proofs.InsertRep.
 Import ListNotations.
 
 (* what extract() hands back has no parent, no siblings and nothing before it — for every heap *)
@@ -67,3 +67,17 @@ Print Assumptions C01_descendants.
 Theorem C01_no_duplicates : forall h T linked, rep1 h T linked -> NoDup (pre T).
 Proof. exact rep1_NoDup. Qed.
 Print Assumptions C01_no_duplicates.
+
+(* Tag._insert of a (fully linked) tree Tc of the forest under the tag [self] of the tree Tp re-links
+   all six pointers so that the heap represents the forest in which Tc has become child number
+   [pos] of [self]; when the insertion is at position 0 directly under a document root that stood
+   outside the element chain, the root joins the chain (it points at the new first element). *)
+Theorem C01_insert_rep : forall F Tp bp Tc h self position fuel h',
+  rep ((Tp, bp) :: (Tc, true) :: F) h ->
+  In self (pre Tp) -> is_tag h self = true ->
+  length (pre Tp) + length (pre Tc) <= fuel ->
+  insert1 fuel h self position (rid Tc) = Some h' ->
+  let pos := Nat.min position (length (kids (h self))) in
+  rep ((insert_sub self pos Tc Tp, bp || (Nat.eqb self (rid Tp) && Nat.eqb pos 0)) :: F) h'.
+Proof. exact insert1_rep. Qed.
+Print Assumptions C01_insert_rep.
